@@ -41,7 +41,7 @@ type Case struct {
 
 // ---------------- ammo mutations ----------------
 
-var typeName = map[string]string{"uri": "uri", "uripost": "uripost", "raw": "raw", "jsonline": "http/json", "grpcjson": "grpc/json"}
+var typeName = map[string]string{"uri": "uri", "uripost": "uripost", "raw": "raw", "jsonline": "http/json", "grpcjson": "grpc/json", "json": "json"}
 
 // stableFile renders a file whose prefix up to entry i is byte-identical whatever follows.
 func stableFile(rng *rand.Rand, format string) (vkit.AmmoFile, []int) {
@@ -149,6 +149,19 @@ func ammoCases(rng *rand.Rand, n int) []Case {
 			out = append(out, c)
 		}
 	}
+	// inputs without a single entry, read with passes: 0 (the default, "repeat for ever"): a
+	// provider must find out that there is nothing to repeat instead of rewinding for ever
+	for _, format := range []string{"uri", "uripost", "raw", "jsonline", "grpcjson", "json"} {
+		for _, text := range []string{"", "\n", "\n\n\n", " ", " \t\n", "\r\n", "[Host: h.example]\n", "[]", "[]\n"} {
+			if (text == "[]" || text == "[]\n") && format != "jsonline" && format != "json" {
+				continue
+			}
+			if strings.HasPrefix(text, "[Host") && format != "uri" && format != "uripost" {
+				continue
+			}
+			out = append(out, Case{Kind: "ammo", Format: format, Mut: "no-entries+unbounded", Text: []byte(text)})
+		}
+	}
 	out = append(out, Case{Kind: "ammo", Format: "grpcjson", Mut: "empty-file", Text: nil})
 	out = append(out, Case{Kind: "ammo", Format: "grpcjson", Mut: "blank-file", Text: []byte("\n\n")})
 	return out
@@ -159,6 +172,12 @@ func runAmmo(res *vkit.Result, c Case, final bool, watchdog time.Duration) strin
 	path := vkit.WriteMem(c.Text)
 	defer vkit.RemoveMem(path)
 	conf := map[string]any{"type": typeName[c.Format], "file": path, "passes": 1}
+	if c.Format == "json" {
+		conf = map[string]any{"type": "json", "source": map[string]any{"type": "file", "path": path}, "passes": 1}
+	}
+	if strings.Contains(c.Mut, "unbounded") {
+		conf["passes"] = 0
+	}
 	if c.Preload {
 		conf["preload"] = true
 	}
@@ -413,7 +432,27 @@ scenarios:
 var defaults = map[string]string{
 	"VARFUNC": "plain", "METHOD": "GET", "URI": "/r1?u={{.request.r1.preprocessor.u}}", "PREMAP": "source.users[next].id",
 	"HDRMAP": "Content-Type|lower", "JSONPATH": "$.tok", "XPATH": "//title/text()", "BODY": "x={{.request.r1.postprocessor.tok}}",
-	"REQS": `["r1", "r2(2)", "sleep(1)"]`,
+	"REQS": `["r1", "r2(2)", "sleep(1)"]`, "WEIGHT": "1", "WEIGHT2": "2", "MWT": "0",
+}
+
+// two weighted scenarios: the templates above with a second scenario and open weight slots
+func twoScenarios(tmpl, ext string, grpc bool) string {
+	req := "r2"
+	if grpc {
+		req = "c1"
+	}
+	if ext == "hcl" {
+		tmpl = strings.Replace(tmpl, "weight           = 1", "weight           = @@WEIGHT@@", 1)
+		return tmpl + "scenario \"s2\" {\n  weight           = @@WEIGHT2@@\n  min_waiting_time = @@MWT@@\n  requests         = [\"" + req + "\"]\n}\n"
+	}
+	tmpl = strings.Replace(tmpl, "weight: 1", "weight: @@WEIGHT@@", 1)
+	return tmpl + "  - name: \"s2\"\n    weight: @@WEIGHT2@@\n    min_waiting_time: @@MWT@@\n    requests: [\"" + req + "\"]\n"
+}
+
+var weightMutations = map[string][]string{
+	"WEIGHT":  {"-1", "-5", "0", "3", "100000", "1.5", "\"x\"", "99999999999999999999", "-9223372036854775808", "null"},
+	"WEIGHT2": {"-1", "-2", "0", "-100000"},
+	"MWT":     {"-5", "1.5", "\"x\"", "99999999999999999999"},
 }
 
 var slotMutations = map[string][]string{
@@ -475,6 +514,38 @@ func scenarioCases(rng *rand.Rand, quick bool) []Case {
 		gl := strings.ReplaceAll(strings.ReplaceAll(rl, "r1", "c1"), "r2", "c1")
 		out = append(out, Case{Kind: "scenario", Format: "grpc/scenario", Ext: "yaml", Mut: "REQS=" + gl + " csv=rows",
 			Text: []byte(fill(grpcScenarioYAML, map[string]string{"REQS": gl}, "@@AUXPATH@@")), Aux: csvs["rows"]})
+	}
+	// csv data that does not match the declared fields (["id", "name"]): fewer or more columns,
+	// ragged rows, blank lines, stray quotes, CRLF, a BOM — × a few ways of picking a row
+	shapes := map[string]string{"narrow": "1\n2\n", "wide": "1,a,b,c\n2,d,e,f\n", "ragged-short": "1,a\n2\n", "ragged-long": "1\n2,b\n",
+		"blank-lines": "\n\n1,a\n\n2,b\n", "stray-quote": "1,\"a\n2,b\n", "crlf": "1,a\r\n2,b\r\n", "bom": "\ufeff1,a\n2,b\n", "only-commas": ",,,\n", "nul": "1,a\x00\n"}
+	for shape, csv := range shapes {
+		for _, m := range []string{"source.users[0].id", "source.users[next].name", "source.users[-1].name", "source.users[1].id", "source.users[rand].name"} {
+			for _, ext := range []string{"yaml", "hcl"} {
+				tmpl := httpScenarioYAML
+				if ext == "hcl" {
+					tmpl = httpScenarioHCL
+				}
+				out = append(out, Case{Kind: "scenario", Format: "http/scenario", Ext: ext, Mut: "PREMAP=" + m + " csv=" + shape,
+					Text: []byte(fill(tmpl, map[string]string{"PREMAP": m}, "@@AUXPATH@@")), Aux: csv})
+			}
+			out = append(out, Case{Kind: "scenario", Format: "grpc/scenario", Ext: "yaml", Mut: "PREMAP=" + m + " csv=" + shape,
+				Text: []byte(fill(grpcScenarioYAML, map[string]string{"PREMAP": m, "REQS": `["c1"]`}, "@@AUXPATH@@")), Aux: csv})
+		}
+	}
+	for slot, muts := range weightMutations {
+		for _, m := range muts {
+			for _, ext := range []string{"yaml", "hcl"} {
+				tmpl := httpScenarioYAML
+				if ext == "hcl" {
+					tmpl = httpScenarioHCL
+				}
+				out = append(out, Case{Kind: "scenario", Format: "http/scenario", Ext: ext, Mut: slot + "=" + m + " two-scenarios",
+					Text: []byte(fill(twoScenarios(tmpl, ext, false), map[string]string{slot: m}, "@@AUXPATH@@")), Aux: csvs["rows"]})
+			}
+			out = append(out, Case{Kind: "scenario", Format: "grpc/scenario", Ext: "yaml", Mut: slot + "=" + m + " two-scenarios",
+				Text: []byte(fill(twoScenarios(grpcScenarioYAML, "yaml", true), map[string]string{slot: m, "REQS": `["c1"]`}, "@@AUXPATH@@")), Aux: csvs["rows"]})
+		}
 	}
 	for slot, muts := range slotMutations {
 		for _, m := range muts {
